@@ -26,8 +26,9 @@ def _imports():
     return u, coord, models, Time, cf, wcs
 
 
-def affine_nd(rng, n, box=False, names=False):
-    """generic n-D frames, integer shifts / sign flips / axis permutation: exact"""
+def affine_nd(rng, n, box=False, names=False, frame_axes_order=None):
+    """generic n-D frames, integer shifts / sign flips / axis permutation: exact.  frame_axes_order: the axes_order attribute of the
+    input frame object (the positions of the transform's inputs are what they are whatever the frame's axes_order says)"""
     u, coord, models, Time, cf, wcs = _imports()
     perm = list(range(n))
     rng.shuffle(perm)
@@ -39,7 +40,8 @@ def affine_nd(rng, n, box=False, names=False):
         sc = sc & models.Scale(signs[k])
         sh = sh & models.Shift(offs[k])
     tr = models.Mapping(tuple(perm)) | sc | sh
-    det = "detector" if names else cf.CoordinateFrame(naxes=n, axes_type=("PIXEL",) * n, axes_order=tuple(range(n)),
+    det = "detector" if names else cf.CoordinateFrame(naxes=n, axes_type=("PIXEL",) * n,
+                                                        axes_order=tuple(frame_axes_order) if frame_axes_order else tuple(range(n)),
                                                         name="detector", unit=(u.pix,) * n)
     out = cf.CoordinateFrame(naxes=n, axes_type=("SPATIAL",) * n, axes_order=tuple(range(n)), name="world",
                              unit=(u.pix,) * n)
